@@ -28,8 +28,83 @@ Z3_FAST_MS = int(os.environ.get("VERIF_Z3_FAST_MS", "3000"))
 DECIDE_TIMEOUT_MS = int(os.environ.get("VERIF_DECIDE_TIMEOUT_MS", "10000"))
 ITE_SPLIT_LEAVES = int(os.environ.get("VERIF_ITE_SPLIT_LEAVES", "4000"))
 ITE_SPLIT_DEPTH = int(os.environ.get("VERIF_ITE_SPLIT_DEPTH", "400"))
-ITE_SPLIT_SECONDS = float(os.environ.get("VERIF_ITE_SPLIT_SECONDS", "240"))
+ITE_SPLIT_SECONDS = float(os.environ.get("VERIF_ITE_SPLIT_SECONDS", "480"))  # CPU seconds
 MAX_PATHS = int(os.environ.get("VERIF_MAX_PATHS", "4096"))
+
+# ---------------------------------------------------------------------------------------------
+# Solver budgets are CPU time, not wall-clock time.
+#
+# z3's `timeout` parameter (and cvc5's --tlimit) count wall-clock milliseconds, so on a machine whose
+# cores are shared (several checks at once, or a noisy neighbour) a query that needs 1 s of CPU can
+# overrun a 3 s limit, come back `unknown`, and turn a discharged obligation into an undecided one.
+# Every timed solver call therefore goes through limited_check(): the wall-clock limit handed to z3 is
+# the CPU budget scaled by the slowdown currently observed (wall / thread-CPU of recent calls), and an
+# `unknown` that hit the wall limit while the calling thread had consumed clearly less CPU (< 60 %) than the
+# budget is retried with a proportionally longer wall limit.  A query is given up only after it has
+# really used its CPU budget (or WALL_CAP times the budget in wall time), so verdicts do not depend on
+# the load of the machine.  (ctx.interrupt() from a CPU-time watchdog is not used as the primary limit:
+# an interrupt that lands just after check() has returned leaves the z3 context cancelled for good.)
+WALL_CAP = float(os.environ.get("VERIF_WALL_CAP", "40"))
+_SLOWDOWN = [1.0]  # wall / CPU ratio of recent solver calls in this process (>= 1)
+
+
+def _note_slowdown(wall, cpu):
+    if wall >= 0.2:
+        ratio = min(WALL_CAP, max(1.0, wall / max(cpu, 1e-3)))
+        _SLOWDOWN[0] = 0.5 * _SLOWDOWN[0] + 0.5 * ratio
+
+
+def limited_check(solver, budget_ms, restore_ms=None):
+    """solver.check() under a CPU-time budget of budget_ms (see above) -> z3.sat / z3.unsat / z3.unknown"""
+    import threading
+
+    budget = budget_ms / 1000.0
+    scale = 1.0  # first attempt: plain wall-clock limit (identical to an idle machine); scaled up only on evidence of starvation
+    spent_wall = 0.0
+    r = z3.unknown
+    try:
+        for _attempt in range(5):
+            wall_ms = int(min(budget_ms * scale, budget_ms * WALL_CAP))
+            solver.set("timeout", wall_ms)
+            # z3's own timeout is only polled between solver steps; a watchdog interrupts checks that overrun
+            # (it can only fire long after z3's own limit, i.e. while the check is still running)
+            wd = threading.Timer(wall_ms / 1000.0 * 1.5 + 2.0, solver.ctx.interrupt)
+            wd.daemon = True
+            wd.start()
+            c0, w0 = time.thread_time(), time.monotonic()
+            try:
+                r = solver.check()
+            except z3.Z3Exception:
+                r = z3.unknown
+            finally:
+                wd.cancel()
+            cpu, wall = time.thread_time() - c0, time.monotonic() - w0
+            _note_slowdown(wall, cpu)
+            spent_wall += wall
+            if r != z3.unknown:
+                break
+            if wall < 0.9 * wall_ms / 1000.0:  # gave up by itself (incomplete theory), not a timeout
+                break
+            if cpu >= 0.6 * budget or spent_wall >= budget * WALL_CAP:  # (a retry repeats the work: only when clearly starved)
+                break
+            # starved: the wall limit expired with the CPU budget unspent -> retry with the limit scaled up
+            scale = min(WALL_CAP, max(scale * 1.5, 1.25 * wall / max(cpu, 1e-3)))
+    finally:
+        if restore_ms is not None:
+            solver.set("timeout", restore_ms)
+    return r
+
+
+def _child_cpu_limit(seconds):
+    """hard CPU-time limit for a forked / spawned solver process (its CPU clock starts at zero)"""
+    import resource
+
+    s = int(seconds) + 1
+    try:
+        resource.setrlimit(resource.RLIMIT_CPU, (s, s + 5))
+    except (ValueError, OSError):
+        pass
+
 
 
 class Unsupported(Exception):
@@ -907,20 +982,10 @@ class Ctx:
             self.solver.add(e)
         for e in extra:
             self.solver.add(e)
-        import threading
-
-        self.solver.set("timeout", DECIDE_TIMEOUT_MS)
-        wd = threading.Timer(DECIDE_TIMEOUT_MS / 1000.0 * 1.5 + 2.0, self.solver.ctx.interrupt)
-        wd.daemon = True
-        wd.start()
         try:
-            r = self.solver.check()
-        except z3.Z3Exception:
-            r = z3.unknown
+            r = limited_check(self.solver, DECIDE_TIMEOUT_MS, restore_ms=Z3_TIMEOUT_MS)
         finally:
-            wd.cancel()
-            self.solver.set("timeout", Z3_TIMEOUT_MS)
-        self.solver.pop()
+            self.solver.pop()
         return r
 
     def decide(self, z):
@@ -1032,32 +1097,33 @@ class Ctx:
         ms = (time.time() - t0) * 1e3
         ob = Obligation(name, status, backend, ms, path, model=model, detail=detail, tag=tag)
         if os.environ.get("VERIF_TRACE"):
-            print(f"[trace] {name} path={path} {status} {backend} {ms / 1e3:.1f}s", file=sys.stderr, flush=True)
+            st = getattr(self, "_stats", {})
+            print(f"[trace] {name} path={path} {status} {backend} leaves={ITE_SPLIT_LEAVES - getattr(self, '_split_budget', ITE_SPLIT_LEAVES)} stats={st} {ms / 1e3:.1f}s", file=sys.stderr, flush=True)
+            self._stats = {}
         self.session.record(ob)
         return status == "discharged"
 
     def _z3_check(self, hyps, negated_goal, timeout_ms):
+        """one z3 query under a CPU-time budget of timeout_ms (limited_check)"""
         self.solver.push()
-        self.solver.set("timeout", timeout_ms)
         for h in hyps:
             self.solver.add(h)
         self.solver.add(negated_goal)
-        # z3's own timeout is only polled between solver steps; a watchdog interrupts checks that overrun
-        import threading
-
-        wd = threading.Timer(timeout_ms / 1000.0 * 1.5 + 2.0, self.solver.ctx.interrupt)
-        wd.daemon = True
-        wd.start()
-        try:
-            r = self.solver.check()
-        except z3.Z3Exception:
-            r = z3.unknown
-        finally:
-            wd.cancel()
+        _t0 = time.time()
+        _c0 = time.process_time()
+        r = limited_check(self.solver, timeout_ms, restore_ms=Z3_TIMEOUT_MS)
+        if os.environ.get("VERIF_TRACE"):
+            st = self.__dict__.setdefault("_stats", {})
+            fn = sys._getframe(1).f_code.co_name
+            st[fn] = st.get(fn, 0) + 1
+            st[fn + "_s"] = round(st.get(fn + "_s", 0) + time.process_time() - _c0, 2)
+            if r == z3.unknown:
+                st[fn + "_unknown"] = st.get(fn + "_unknown", 0) + 1
+        if os.environ.get("VERIF_TRACE_Z3") and (r == z3.unknown or time.time() - _t0 > 1.0):
+            print(f"[z3] {sys._getframe(1).f_code.co_name} limit={timeout_ms} {r} {time.time() - _t0:.2f}s slowdown={_SLOWDOWN[0]:.1f}", file=sys.stderr, flush=True)
         model = self.solver.model() if r == z3.sat else None
         smt2 = self.solver.to_smt2() if r == z3.unknown else None
         self.solver.pop()
-        self.solver.set("timeout", Z3_TIMEOUT_MS)
         return r, model, smt2
 
     def _z3_check_long(self, hyps, negated_goal, timeout_ms):
@@ -1078,13 +1144,15 @@ class Ctx:
             if pid == 0:  # child
                 try:
                     os.close(rfd)
-                    self.solver.set("timeout", timeout_ms)
+                    # budget = CPU time of the child (RLIMIT_CPU); z3's wall-clock limit is only the outer cap
+                    _child_cpu_limit(timeout_ms / 1000.0)
+                    self.solver.set("timeout", int(timeout_ms * WALL_CAP))
                     r = self.solver.check()
                     os.write(wfd, str(r).encode())
                 finally:
                     os._exit(0)
             os.close(wfd)
-            ready, _, _ = select.select([rfd], [], [], timeout_ms / 1000.0 + 5.0)
+            ready, _, _ = select.select([rfd], [], [], timeout_ms / 1000.0 * WALL_CAP + 5.0)
             if ready:
                 verdict = os.read(rfd, 32).decode() or "unknown"
             else:
@@ -1138,15 +1206,13 @@ class Ctx:
                 for d in divs:
                     divisors[d.get_id()] = d
                 for x in getattr(ringnf.identity, "last_nonneg", []):
-                    rr, _, _ = self._z3_check(hyps, x < 0, Z3_TIMEOUT_MS)
-                    if rr != z3.unsat:
+                    if not self._side_check(hyps, x < 0, Z3_TIMEOUT_MS):
                         ok = False
                         break
             if ok:
                 side_ok = True
                 for d in divisors.values():
-                    rr, _, _ = self._z3_check(hyps, d == 0, Z3_TIMEOUT_MS)
-                    if rr != z3.unsat:
+                    if not self._side_check(hyps, d == 0, Z3_TIMEOUT_MS):
                         side_ok = False
                         break
                 if side_ok:
@@ -1213,9 +1279,20 @@ class Ctx:
                     if differ:
                         continue
                     if conj:
-                        rr, _, _ = self._z3_check(hyps, z3.Not(z3.And(*conj)), Z3_FAST_MS)
-                        if rr != z3.unsat:
+                        # index arithmetic: decide it from the pure-integer hypotheses first (a subset of the
+                        # hypotheses, so `unsat` carries over); the full context with its nonlinear real facts
+                        # makes z3's run time for these trivial questions erratic (ms .. seconds)
+                        ng = z3.Not(z3.And(*conj))
+                        ri = self._int_check(hyps, ng) if _int_only(ng) else z3.unknown
+                        if ri == z3.sat:
+                            # every pure-integer hypothesis holds with the two index tuples distinct: not merged
+                            # (the full context is not asked: in some processes z3 needs seconds for each of these
+                            # hundreds of trivial queries, which used to exhaust the case-split budget)
                             continue
+                        if ri != z3.unsat:
+                            rr, _, _ = self._z3_check(hyps, ng, Z3_FAST_MS)
+                            if rr != z3.unsat:
+                                continue
                     subs.append((t, r))
                     merged = True
                     break
@@ -1224,6 +1301,35 @@ class Ctx:
         if not subs:
             return g
         return _simp(z3.substitute(g, *subs))
+
+    def _side_check(self, hyps, negated_goal, timeout_ms):
+        """-> True iff hyps & negated_goal is unsat.  Tried first from the hypotheses that mention a symbol of the
+        goal (a subset of the hypotheses, so `unsat` carries over): with the unrelated nonlinear facts of the
+        whole context present, z3's run time for these small side conditions (divisor != 0, atom == 0) is
+        heavy-tailed (ms on most runs, minutes on some); the full context is the fallback."""
+        syms = _symbols(negated_goal)
+        rel = [h for h in list(self.assumptions) + list(self.pathcond) + list(hyps) if not z3.is_quantifier(h) and _symbols(h) & syms]
+        if rel:
+            sv = z3.Solver()
+            for h in rel:
+                sv.add(h)
+            sv.add(negated_goal)
+            if limited_check(sv, min(timeout_ms, 4 * Z3_FAST_MS)) == z3.unsat:
+                return True
+        rr, _, _ = self._z3_check(hyps, negated_goal, timeout_ms)
+        return rr == z3.unsat
+
+    def _int_check(self, hyps, negated_goal):
+        """satisfiability of the pure-integer part of the hypotheses with negated_goal (int_solver)"""
+        self.int_solver.push()
+        try:
+            for h in hyps:
+                if _int_only(h):
+                    self.int_solver.add(h)
+            self.int_solver.add(negated_goal)
+            return limited_check(self.int_solver, 2000)
+        finally:
+            self.int_solver.pop()
 
     def _ringnf_leaf(self, g, hyps):
         from . import ringnf
@@ -1254,8 +1360,7 @@ class Ctx:
                 for a, b in eqs:
                     for t in ringnf.residual_atoms(a, b):
                         if z3.is_app(t) and t.decl().kind() == z3.Z3_OP_UNINTERPRETED and z3.is_arith(t):
-                            rr, _, _ = self._z3_check(hyps, t != 0, Z3_FAST_MS)
-                            if rr == z3.unsat:
+                            if self._side_check(hyps, t != 0, Z3_FAST_MS):
                                 subs.append((t, z3.RealVal(0) if z3.is_real(t) else z3.IntVal(0)))
                 if subs:
                     g3 = _simp(z3.substitute(g2, *subs))
@@ -1274,12 +1379,10 @@ class Ctx:
             for d in divs:
                 divisors[d.get_id()] = d
             for x in getattr(ringnf.identity, "last_nonneg", []):
-                rr, _, _ = self._z3_check(hyps, x < 0, Z3_TIMEOUT_MS)
-                if rr != z3.unsat:
+                if not self._side_check(hyps, x < 0, Z3_TIMEOUT_MS):
                     return False
         for d in divisors.values():
-            rr, _, _ = self._z3_check(hyps, d == 0, Z3_TIMEOUT_MS)
-            if rr != z3.unsat:
+            if not self._side_check(hyps, d == 0, Z3_TIMEOUT_MS):
                 return False
         return True
 
@@ -1316,7 +1419,14 @@ class Ctx:
                     if _int_only(h):
                         self.int_solver.add(h)
                 self.int_solver.add(hc)
-                feas = self.int_solver.check()
+                _c0 = time.process_time()
+                feas = limited_check(self.int_solver, 2000)
+                if os.environ.get("VERIF_TRACE"):
+                    st = self.__dict__.setdefault("_stats", {})
+                    st["int"] = st.get("int", 0) + 1
+                    st["int_s"] = round(st.get("int_s", 0) + time.process_time() - _c0, 2)
+                    if feas == z3.unknown:
+                        st["int_unknown"] = st.get("int_unknown", 0) + 1
                 self.int_solver.pop()
                 if feas == z3.unsat:
                     continue
@@ -1347,6 +1457,35 @@ class Ctx:
         """Vacuity guard: the current point must be reachable (assumptions satisfiable)."""
         r = self.solver.check()
         self.session.record_cover(name, r != z3.unsat)
+
+
+_SYMBOLS_CACHE = {}
+
+
+def _symbols(e):
+    """ids of the uninterpreted constants / function symbols occurring in e"""
+    k = e.get_id()
+    hit = _SYMBOLS_CACHE.get(k)
+    if hit is not None:
+        return hit[1]
+    out = set()
+    seen = set()
+    stack = [e]
+    while stack:
+        t = stack.pop()
+        i = t.get_id()
+        if i in seen:
+            continue
+        seen.add(i)
+        if z3.is_quantifier(t):
+            stack.append(t.body())
+        elif z3.is_app(t):
+            if t.decl().kind() == z3.Z3_OP_UNINTERPRETED:
+                out.add(t.decl().get_id())
+            stack.extend(t.children())
+    out = frozenset(out)
+    _SYMBOLS_CACHE[k] = (e, out)
+    return out
 
 
 _INT_ONLY_CACHE = {}
@@ -1407,11 +1546,13 @@ def run_cvc5(smt2_text):
         f.write("(set-logic ALL)\n" + smt2_text)
         fn = f.name
     try:
+        # budget = CPU time of the cvc5 process (RLIMIT_CPU); --tlimit (wall clock) is only the outer cap
         out = subprocess.run(
-            [exe, "--lang=smt2", f"--tlimit={CVC5_TIMEOUT_MS}", "--nl-ext-tplanes", fn],
+            [exe, "--lang=smt2", f"--tlimit={int(CVC5_TIMEOUT_MS * WALL_CAP)}", "--nl-ext-tplanes", fn],
             capture_output=True,
             text=True,
-            timeout=CVC5_TIMEOUT_MS / 1000 + 10,
+            timeout=CVC5_TIMEOUT_MS / 1000 * WALL_CAP + 10,
+            preexec_fn=lambda: _child_cpu_limit(CVC5_TIMEOUT_MS / 1000.0),
         )
         first = (out.stdout.strip().splitlines() or ["unknown"])[0].strip()
         return first if first in ("sat", "unsat") else "unknown"
